@@ -604,16 +604,21 @@ pub fn run_c12_timeouts(a: &Args, shared: &SharedReport) {
     // (b) expiring timeout on an effectively unbounded model: the timer may fire after any number
     //     of worker decisions; afterwards every worker must exit after starting at most a few more
     //     blocks, for every thread count.
-    for st in ["bfs", "dfs", "on_demand", "simulation"] {
+    // shapes: a binary tree (frontiers grow) and a chain (every worker queue holds exactly one state)
+    for (shape, branching, depth) in [("bigtree", 2u64, 40u32), ("chain", 1u64, 1_000_000u32)] {
+      for st in ["bfs", "dfs", "on_demand", "simulation"] {
+        if shape == "chain" && st == "simulation" {
+            continue; // a simulation trace of a million states only ends by itself
+        }
         for t in if th { vec![1usize, 2, 3] } else { vec![1usize, 2] } {
-            let positions: Vec<usize> = if th { vec![0, 1, 2, 3, 5, 8, 13, 21, 34, 55] } else { vec![0, 2, 5, 11, 23] };
+            let positions: Vec<usize> = if th { vec![0, 1, 2, 3, 5, 8, 13, 21, 34, 55] } else if shape == "chain" { vec![0, 5, 23] } else { vec![0, 2, 5, 11, 23] };
             for pos in positions {
                 idx += 1;
                 if idx % a.nshards != a.shard {
                     continue;
                 }
-                let name = format!("bigtree/{st}/T{t}/expiring-timeout/fire-after-{pos}");
-                let rv = json!({"engine": "e2expire", "strategy": st, "threads": t, "fire_after_decisions": pos});
+                let name = format!("{shape}/{st}/T{t}/expiring-timeout/fire-after-{pos}");
+                let rv = json!({"engine": "e2expire", "shape": shape, "strategy": st, "threads": t, "fire_after_decisions": pos});
                 begin_case(shared, &name, rv.clone(), "e2:c12-stuck-outside-scheduler");
                 let timer = t; // thread id of "timeout"
                 let horizon = 600;
@@ -625,7 +630,7 @@ pub fn run_c12_timeouts(a: &Args, shared: &SharedReport) {
                         opts.iter().position(|o| *o == timer).unwrap_or(0)
                     }
                 };
-                let (evaluated, tr) = run_big(t, st, 1, &mut choose, horizon, if st == "simulation" { 10 } else { 40 });
+                let (evaluated, tr) = run_big(t, st, 1, &mut choose, horizon, if st == "simulation" { 10 } else { depth }, branching);
                 end_case(shared);
                 // blocks started per worker after the timer thread exited
                 let timer_exit = tr.log.iter().position(|(th_id, l)| *th_id == timer && l == "exit");
@@ -648,6 +653,17 @@ pub fn run_c12_timeouts(a: &Args, shared: &SharedReport) {
                     r.count("timeout_expiring_executions", 1);
                     r.sample(7, || json!({"case": name, "steps": tr.steps, "evaluated_states": evaluated, "blocks_started_after_expiry": blocks_after}));
                 }
+                // the market may only be closed once the timeout has really expired, and not much later
+                if let Some(te) = timer_exit {
+                    let _ = te;
+                    if let Some(c) = tr.timer_exit_clock {
+                        let secs = c / 1_000_000_000;
+                        if secs < 1 || secs > 3 {
+                            let mut r = shared.lock().unwrap();
+                            r.violation(&format!("e2:c12-timeout-wrong-deadline:{st}"), format!("{name}: timeout(1s) closed the check at virtual time {secs} s"), rv.clone());
+                        }
+                    }
+                }
                 match &tr.end {
                     RunEnd::AllExited => {
                         let worst = blocks_after.values().copied().max().unwrap_or(0);
@@ -668,10 +684,11 @@ pub fn run_c12_timeouts(a: &Args, shared: &SharedReport) {
                 }
             }
         }
+      }
     }
 }
 
-fn run_big(threads: usize, strategy: &str, secs: u64, choose: &mut dyn FnMut(usize, usize, &[usize], &[TState]) -> usize, horizon: usize, depth: u32) -> (usize, RunTrace) {
+fn run_big(threads: usize, strategy: &str, secs: u64, choose: &mut dyn FnMut(usize, usize, &[usize], &[TState]) -> usize, horizon: usize, depth: u32, branching: u64) -> (usize, RunTrace) {
     let s = sched();
     let nm = names(threads, true);
     let workers: Vec<usize> = (0..threads).collect();
@@ -680,7 +697,7 @@ fn run_big(threads: usize, strategy: &str, secs: u64, choose: &mut dyn FnMut(usi
     s.begin(&nm);
     let evaluated = Arc::new(Mutex::new(0usize));
     let e2 = Arc::clone(&evaluated);
-    let b = BigTree { depth, branching: 2 }.checker().threads(threads).timeout(Duration::from_secs(secs)).visitor(move |_p: Path<(u32, u64), u64>| {
+    let b = BigTree { depth, branching }.checker().threads(threads).timeout(Duration::from_secs(secs)).visitor(move |_p: Path<(u32, u64), u64>| {
         *e2.lock().unwrap() += 1;
     });
     fn fin<C: Checker<BigTree>>(c: C, rtc: bool, between: &mut dyn FnMut() -> bool) {
